@@ -228,6 +228,40 @@ C06V(r) ==
     FirstFail(<< <<"missing-required-section-rejected-with-ValueError", r.raised = "ValueError">> >>)
   ELSE <<"fail", "unknown-record-kind">>
 
+(***************************** C13 *****************************************)
+\* r.present / r.poison: track headers in the file / those whose body makes their own parser raise;
+\* r.want = <<"none">> or <<"some", <<headers...>>>>; r.tr = <<[h, d, ref]>> returned tracks with the digest
+\* of each and of the same track in an unrestricted parse of the file with the poison bodies replaced.
+C13V(r) ==
+  LET P   == RangeOf(r.present)
+      Sel == IF r.want[1] = "none" THEN P ELSE P \cap RangeOf(r.want[2])
+  IN
+  IF Sel \cap RangeOf(r.poison) # {} THEN Skip("a-selected-section-is-itself-invalid")
+  ELSE FirstFail(<<
+    <<"unselected-section-content-must-not-matter", r.outcome = "chart">>,
+    <<"exactly-the-selected-tracks-that-exist", { r.tr[k].h : k \in DOMAIN r.tr } = Sel /\ Len(r.tr) = Cardinality(Sel)>>,
+    <<"each-track-identical-to-unrestricted-parse", \A k \in DOMAIN r.tr : r.tr[k].d = r.tr[k].ref>>,
+    <<"metadata-sync-global-unchanged", r.meta = r.metaref /\ r.sync = r.syncref /\ r.glob = r.globref>>
+  >>)
+
+(***************************** C14 *****************************************)
+\* r.lines = <<token>> abstract body lines ("k1" "k2" "k3" valid line of the section's 1st/2nd/3rd kind, "junk"),
+\* r.got = <<idx...>> per kind: the body-line indices (1-based) whose data were observed, in observed order;
+\* r.warn = <<idx>> for each unparsable-line report the index of the body line it names (0 if it names none);
+\* r.clean = digest of the section parsed without its junk lines, r.dirty = digest with them.
+C14V(r) ==
+  LET n == Len(r.lines)
+      Want(tok) == SelectSeq([k \in 1..n |-> k], LAMBDA k : r.lines[k] = tok)
+      Junk == { k \in 1..n : r.lines[k] = "junk" }
+  IN
+  IF r.raised # "" THEN <<"fail", "unparsable-line-aborted-the-section">>
+  ELSE FirstFail(<<
+    <<"each-line-contributes-to-exactly-one-kind", r.got[1] = Want("k1") /\ r.got[2] = Want("k2") /\ r.got[3] = Want("k3")>>,
+    <<"each-unparsable-line-reported-once-naming-it", Len(r.warn) = Cardinality(Junk) /\ RangeOf(r.warn) = Junk>>,
+    <<"claimed-plus-reported-equals-body-lines", Len(r.got[1]) + Len(r.got[2]) + Len(r.got[3]) + Len(r.warn) = n>>,
+    <<"unparsable-lines-leave-every-parsed-event-unchanged", r.clean = r.dirty>>
+  >>)
+
 (***************************** C08 *****************************************)
 \* r.kind = "B":  r.nd digits of n, r.m / r.e the observed tempo as m * 2^e (m the 53-bit significand)
 \* "the nearest float": |m * 2^e - n/1000| <= half an ulp = 2^e / 2, i.e. |1000 m 2^e - n| <= 500 * 2^e
@@ -278,6 +312,8 @@ VerdictOf(p, r) ==
     [] p = "C04" -> C04V(r)
     [] p = "C05" -> C05V(r)
     [] p = "C08" -> C08V(r)
+    [] p = "C14" -> C14V(r)
+    [] p = "C13" -> C13V(r)
     [] p = "C06" -> C06V(r)
     [] p = "C01" -> C01V(r)
     [] p = "C11" -> C11V(r)
